@@ -205,6 +205,10 @@ def instr_pool(spec, rng, want, flow=False, max_tries=None):
         if spec.family.startswith("x86") and (name in X86_DENY or name.startswith("F") or
                                               name.startswith("REP") or "CR" in name):
             continue
+        if spec.family == "mep" and name in ("REPEAT", "EREPEAT"):
+            # hardware loops read the PC *register*, which the back ends refresh at different
+            # moments (see PC_REGS): control-flow instructions, not generated
+            continue
         if seen.get(name, 0) >= max(3, want // 12):
             continue
         if not ir_ops_supported(lifter, instr):
